@@ -2,10 +2,10 @@
    main pipelines and `into`, `import`, `module`), emitting the tokens of Model/FmtPratt.v with line breaks, and a
    predictive model of parser/stmt.rs (`module_contents`, `var_def`, `import_def`, annotations; `pipeline(expr_call())`
    for main pipelines) on those tokens.  Width is unlimited; doc comments are not printed by the formatter and are not
-   part of the trees (the property compares trees modulo doc comments); type annotations (`let x <ty>`), `type`
-   definitions and the `prql` header are outside the model.  Executable definitions only. *)
+   part of the trees (the property compares trees modulo doc comments); type annotations on `let` (`let x <ty>`) and
+   the `prql` header are outside the model; `type n = ty` uses Model/FmtTy.v.  Executable definitions only. *)
 From Coq Require Import List NArith Bool Arith.
-From PV Require Import Lib.ListX Model.FmtLit Model.FmtPratt Model.Fmt.
+From PV Require Import Lib.ListX Model.FmtLit Model.FmtPratt Model.Fmt Model.FmtTy.
 Import ListNotations.
 Local Open Scope N_scope.
 
@@ -16,10 +16,11 @@ Inductive stmt :=
 | SMain (anns : list expr) (v : expr)
 | SInto (anns : list expr) (v : expr) (n : str)
 | SImport (anns : list expr) (al : option str) (path : list str)
+| STypeDef (anns : list expr) (n : str) (t : ty)                 (* `type n = ty` *)
 | SModule (anns : list expr) (n : str) (body : list stmt).
 
 Definition anns_of (s : stmt) : list expr :=
-  match s with SLet a _ _ | SMain a _ | SInto a _ _ | SImport a _ _ | SModule a _ _ => a end.
+  match s with SLet a _ _ | SMain a _ | SInto a _ _ | SImport a _ _ | STypeDef a _ _ | SModule a _ _ => a end.
 
 (* ------------------------------------------------------------------ the formatter *)
 Section StmtFormatter.
@@ -53,6 +54,7 @@ Section StmtFormatter.
     | SInto anns v n => fmt_anns ind anns ++ fmt_value_lines v ++ [TNL O; TKw KInto; TA (APar n)]
     | SImport anns al path =>
         fmt_anns ind anns ++ TKw KImport :: match al with Some a => [TAlias a] | None => [] end ++ [TA (APath path)]
+    | STypeDef anns n t => fmt_anns ind anns ++ TKw KType :: TAlias n :: fmt_ty t
     | SModule anns n body =>
         fmt_anns ind anns ++ TKw KModule :: TA (APar n) :: TOpen GTup ::
         TNL (match body with [] => ind | _ => S ind end) ::
@@ -149,6 +151,8 @@ Section StmtParser.
             match path_of t with Some p => Some (SImport anns (Some a) p, r) | None => None end
         | TKw KImport :: t :: r =>
             match path_of t with Some p => Some (SImport anns None p, r) | None => None end
+        | TKw KType :: TAlias nm :: r =>
+            match p_ty n r with Some (t, r1) => Some (STypeDef anns nm t, r1) | None => None end
         | TKw KModule :: t :: TOpen GTup :: r =>
             match name_of t, body r with
             | Some nm, Some (ss, r1) =>
@@ -215,6 +219,7 @@ Fixpoint wf_stmt (s : stmt) : bool :=
   | SLet _ _ None => true
   | SMain _ v | SInto _ v _ => wf_value v
   | SImport _ _ path => negb (match path with [] => true | _ => false end)
+  | STypeDef _ _ t => negb (is_field t) && wf_ty t
   | SModule _ _ body => (fix go (l : list stmt) : bool := match l with [] => true | a :: t => wf_stmt a && go t end) body
   end.
 
@@ -222,7 +227,7 @@ Fixpoint ops_ok_stmt (nb nu : nat) (s : stmt) : bool :=
   forallb (ops_ok nb nu) (anns_of s) &&
   match s with
   | SLet _ _ (Some v) | SMain _ v | SInto _ v _ => ops_ok nb nu v
-  | SLet _ _ None | SImport _ _ _ => true
+  | SLet _ _ None | SImport _ _ _ | STypeDef _ _ _ => true
   | SModule _ _ body => (fix go (l : list stmt) : bool := match l with [] => true | a :: t => ops_ok_stmt nb nu a && go t end) body
   end.
 
